@@ -156,36 +156,79 @@ def PARENT : Bytes := [80, 97, 114, 101, 110, 116]
 def CONTENTS : Bytes := [67, 111, 110, 116, 101, 110, 116, 115]
 def LENGTHE : Bytes := [76, 101, 110, 103, 116, 104]
 
-/-- the `while let Ok(page_tree_id) = page_tree_ref` loop of `delete_pages`. The code has no cycle
-guard: a chain longer than the number of objects revisits an id and never ends — `none` = hang. -/
-def decCounts : Nat → Objects → Option ObjId → Option Objects
-  | _, os, none => some os
-  | 0, _, some _ => none
-  | fuel + 1, os, some id =>
-    match os.get id with
-    | some (.dict pt) =>
-      let pt' : Dict := match (Dict.get pt COUNT).bind Obj.asInt with
-        | some c => Dict.set pt COUNT (.int (c - 1))
-        | none => pt
-      decCounts fuel (os.set id (.dict pt')) ((Dict.get pt' PARENT).bind Obj.asRef)
-    | _ => some os
+/-- decrement `Count` of one `Pages` dictionary, if it has an integer one -/
+def decCount (pt : Dict) : Dict :=
+  match (Dict.get pt COUNT).bind Obj.asInt with
+  | some c => Dict.set pt COUNT (.int (c - 1))
+  | none => pt
+
+theorem unvisited_cons_lt (os : Objects) (seen : List ObjId) (id : ObjId) (v : Obj)
+    (hk : id ∈ os.keys) (hs : seen.contains id = false) :
+    unvisited (os.set id v) (id :: seen) < unvisited os seen := by
+  unfold unvisited
+  rw [Objects.keys_set]
+  apply filter_length_lt _ _ _ id hk
+  · simpa using hs
+  · simp
+  · intro y hy
+    simp only [Bool.not_eq_true', List.contains_eq_mem, decide_eq_false_iff_not, List.mem_cons, not_or] at hy ⊢
+    exact hy.2
+
+/-- the `while let Ok(page_tree_id) = page_tree_ref` loop of `delete_pages` with its seen-set (fix of
+F-C11-c): an ancestor id met a second time ends the walk. No fuel: every iteration marks an object that
+had not been marked before. -/
+def decCounts (os : Objects) (seen : List ObjId) (r : Option ObjId) : Objects :=
+  match r with
+  | none => os
+  | some id =>
+    if hs : seen.contains id then os
+    else
+      match hg : os.get id with
+      | some (.dict pt) =>
+        decCounts (os.set id (.dict (decCount pt))) (id :: seen) ((Dict.get (decCount pt) PARENT).bind Obj.asRef)
+      | _ => os
+termination_by unvisited os seen
+decreasing_by
+  exact unvisited_cons_lt os seen id _ (Objects.mem_keys_of_get hg) (by simpa using hs)
+
+theorem decCounts_none (os : Objects) (seen : List ObjId) : decCounts os seen none = os := by rw [decCounts]
+
+theorem decCounts_seen (os : Objects) (seen : List ObjId) (id : ObjId) (hs : seen.contains id = true) :
+    decCounts os seen (some id) = os := by
+  rw [decCounts]; simp only [hs, dite_true]
+
+theorem decCounts_dict (os : Objects) (seen : List ObjId) (id : ObjId) (pt : Dict)
+    (hs : seen.contains id = false) (hg : os.get id = some (.dict pt)) :
+    decCounts os seen (some id) =
+      decCounts (os.set id (.dict (decCount pt))) (id :: seen) ((Dict.get (decCount pt) PARENT).bind Obj.asRef) := by
+  rw [decCounts]
+  simp only [hs, Bool.false_eq_true, dite_false]
+  split
+  · rename_i pt' hg'; rw [hg] at hg'; cases hg'; rfl
+  · rename_i hne; exact absurd hg (hne pt)
+
+theorem decCounts_other (os : Objects) (seen : List ObjId) (id : ObjId)
+    (hs : seen.contains id = false) (hg : ∀ pt, os.get id ≠ some (.dict pt)) :
+    decCounts os seen (some id) = os := by
+  rw [decCounts]
+  simp only [hs, Bool.false_eq_true, dite_false]
 
 /-- one iteration of `delete_pages`: delete page number `n` (of the page list taken at entry), then
 decrement the `Count` of its ancestors -/
-def deletePage1 (pages : List ObjId) (d : Doc) (n : Nat) : Option Doc :=
+def deletePage1 (pages : List ObjId) (d : Doc) (n : Nat) : Doc :=
   match (if n = 0 then none else pages[n - 1]?) with
-  | none => some d
+  | none => d
   | some pid =>
     match deleteObject d pid with
     | (d', some page) =>
       let parent := (page.asDict.bind fun pd => Dict.get pd PARENT).bind Obj.asRef
-      (decCounts (d'.objects.length + 1) d'.objects parent).map fun os => { d' with objects := os }
-    | (d', none) => some d'
+      { d' with objects := decCounts d'.objects [] parent }
+    | (d', none) => d'
 
 /-- `Document::delete_pages` -/
-def deletePages (d : Doc) (nums : List Nat) : Option Doc :=
+def deletePages (d : Doc) (nums : List Nat) : Doc :=
   let pages := pageIter d.trailer d.objects
-  nums.foldl (fun (acc : Option Doc) n => acc.bind fun d => deletePage1 pages d n) (some d)
+  nums.foldl (fun acc n => deletePage1 pages acc n) d
 
 /-- id of the last object of a reference chain (`dereference`'s first component, or the start id) -/
 def derefIdAux (os : Objects) : Nat → ObjId → Obj → Option ObjId
@@ -392,9 +435,7 @@ def step (d : Doc) : Op → Outcome (Doc × Out)
     | .ok d' => .ok (d', .unit)
     | .err e => .err e
     | .panic s => .panic s
-  | .delPages nums => match deletePages d nums with
-    | some d' => .ok (d', .unit)
-    | none => .err "hang"
+  | .delPages nums => .ok (deletePages d nums, .unit)
   | .addContent page content => addPageContents d page content
   | .removeAnnot id => .ok (removeAnnot id (pageIter d.trailer d.objects) d)
   | .addXObject page name xid => .ok (addXObject d page name xid)
